@@ -8,7 +8,7 @@ import SecsModel.Model.GemTab
 gemtab run <env> <svs> <ecs> <alarms> <op>*
 env    := X<0|1>;K<hex>,<hex>,<hex>;C<int>;E<id>+…;T<int>;F<int>      typeCheck ; clock for format 0,1,2 ; control state ; enabled events ; ect ; time format
 svs    := S<id>~<name hex>~<unit hex>~<c|k|s|e|a|z>~<val>;…            cell / clock / control state / events enabled / alarms enabled / alarms set
-ecs    := E<id>~<name hex>~<num>~<num>~<num>~<unit hex>~<i|f>~<num>;…  min max default ; value_type integer or float ; current value
+ecs    := E<id>~<name hex>~<num|->~<num|->~<num>~<unit hex>~<i|f>~<num>;…  min max (`-` = None) default ; value_type integer or float ; current value
 alarms := A<id>~<code>~<text hex>~<0|1>~<0|1>;…                         enabled, set
 num    := i<int> | f<num>/<k> | fnan | finf | f-inf        ecv := num | o  (not a number)
 op     := S3:<ids> | S11:<ids> | E13:<ids> | E29:<ids> | E15:<id>=<ecv>,… | A3:<aled>:<alid> | A5:<ids> | A7 | AS:<id> | AC:<id> | ASN:<id> | ACN:<id> (S5F1 not answered) | V<id>=<val>
@@ -34,10 +34,11 @@ def showNum : Num → String
   | .inf false => "finf"
   | .inf true => "f-inf"
 
-def parseBound (s : String) : Option (Dy × Bool) :=
+def parseBound (s : String) : Option (Option Dy × Bool) :=
+  if s == "-" then some (none, false) else
   match parseNum s with
-  | some (.int n) => some (⟨n, 0⟩, false)
-  | some (.flt d) => some (d, true)
+  | some (.int n) => some (some ⟨n, 0⟩, false)
+  | some (.flt d) => some (some d, true)
   | _ => none
 
 def parseEcv (s : String) : Option Ecv := if s == "o" then some .other else (parseNum s).map Ecv.num
